@@ -840,7 +840,7 @@ def _havoc_dict_of_lists(interp, d):
 
 NEVER_ASSUMED = lambda fn_name: False
 
-M.contract(P_DP + ':_add_raw_doc', params=dict(added_to=RAW_DOC3, to_add=RAW_DOC3),
+M.contract(P_DP + ':_add_raw_doc', params=dict(added_to=RAW_DOC3, to_add=RAW_DOC3), event='add-raw-doc',
            old=lambda added_to, to_add: (snapshot_lists(added_to), snapshot_lists(to_add)),
            modifies={'added_to': HavocBy(_havoc_dict_of_lists)},
            ensures={
@@ -1263,7 +1263,7 @@ M.assume('_parse_source = `_Impl(...).apply()`: used through an assumed contract
          'parse_file -- any dictionary of element lists over the section names, FileSourceError, FileAccessError or an '
          'exception of a parser.  The mechanisms inside are proved of _Impl.apply and the functions below it.')
 
-M.contract(P_DP + ':parse_file',
+M.contract(P_DP + ':parse_file', event='parse-file',      # (its calls are ghost events: checked in _include_files)
            params=dict(conf=CONF, file_reference_relativity_root_dir=PATH, file_location_info=FILE_LOCATION_WITH_PATH,
                        previously_visited_paths=VISITED),
            ghosts=dict(orig=Str),
@@ -1279,10 +1279,11 @@ M.contract(P_DP + ':parse_file',
                    lambda file_reference_relativity_root_dir, file_location_info, previously_visited_paths:
                    not is_visited((file_reference_relativity_root_dir / file_location_info._file_path_rel_referrer)
                                   .resolve(), previously_visited_paths),
+               # (about the events inside parse_file: proved here, nothing a caller can use)
                'parsed-once-with-this-file-added-to-the-visited-paths-relative-to-its-own-directory':
-                   lambda file_reference_relativity_root_dir, file_location_info, previously_visited_paths, conf, trace:
-                   _parsed_as_specified(trace, file_reference_relativity_root_dir, file_location_info,
-                                        previously_visited_paths, conf),
+                   (lambda file_reference_relativity_root_dir, file_location_info, previously_visited_paths, conf, trace:
+                    _parsed_as_specified(trace, file_reference_relativity_root_dir, file_location_info,
+                                         previously_visited_paths, conf), NEVER_ASSUMED),
            })
 
 
@@ -1298,3 +1299,78 @@ def _parsed_as_specified(trace, root, file_location_info, previously_visited_pat
         and len(vp) == len(previously_visited_paths) + 1 \
         and vp[len(previously_visited_paths)] == path.resolve() \
         and forall_range(0, len(previously_visited_paths), lambda j: vp[j] == previously_visited_paths[j])
+
+
+# ---- inclusion
+
+P_INCLUDE = P_IMPL + '._include_files'
+
+
+def lists_extended(self, old_lists):
+    """every section that had a list still has it, with the old elements first (in the old order)"""
+    d = self._section_name_2_element_list
+    return conj([implies(k in old_lists,
+                         k in d and len(slot(d, k)) >= len(slot(old_lists, k))
+                         and forall_range(0, len(slot(old_lists, k)), lambda j: slot(d, k)[j] == slot(old_lists, k)[j]))
+                 for k in SECTION_NAMES])
+
+
+def _included_as_specified(e, self, inclusion_directive, file_to_include):
+    """one call of parse_file made for an including directive"""
+    a = e[1]
+    conf = a['conf']
+    loc = a['file_location_info']
+    chain = loc._file_inclusion_chain
+    here = self._current_file_location
+    n = len(here._file_inclusion_chain)
+    return conf.section2parser is self.configuration.section2parser \
+        and conf.default_section_name is self._name_of_current_section \
+        and a['file_reference_relativity_root_dir'] is self._file_reference_relativity_root_dir \
+        and a['previously_visited_paths'] is self.visited_paths \
+        and loc._file_path_rel_referrer is file_to_include \
+        and loc._abs_path_of_dir_containing_root_file_path is here._abs_path_of_dir_containing_root_file_path \
+        and len(chain) == n + 1 \
+        and forall_range(0, n, lambda j: chain[j] == here._file_inclusion_chain[j]) \
+        and chain[n].source is inclusion_directive.source \
+        and chain[n].file_path_rel_referrer is here._file_path_rel_referrer
+
+
+def _include_inv(self, old, trace, inclusion_directive, _xs, _i):
+    """(the trace of the arbitrary iteration holds the one call of parse_file that iteration makes: for the
+    file _xs[_i - 1])"""
+    return lists_extended(self, old) \
+        and all(_included_as_specified(e, self, inclusion_directive, _xs[_i - 1])
+                for e in trace if e[0] == 'parse-file') \
+        and _each_parsed_file_is_added(trace, self)
+
+
+def _each_parsed_file_is_added(trace, self):
+    """events: parse_file(..) returned doc, then _add_raw_doc(the dictionary of this parser, doc)"""
+    ev = [e for e in trace if e[0] in ('parse-file:returned', 'add-raw-doc')]
+    if len(ev) % 2 != 0:
+        return False
+    for k in range(0, len(ev), 2):
+        if ev[k][0] != 'parse-file:returned' or ev[k + 1][0] != 'add-raw-doc':
+            return False
+        if ev[k + 1][1]['added_to'] is not self._section_name_2_element_list:
+            return False
+        if ev[k + 1][1]['to_add'] is not ev[k][1]:
+            return False
+    return True
+
+
+M.contract(P_INCLUDE,
+           params=dict(self=IMPL, inclusion_directive=PARSED_INCLUSION), ghosts=dict(orig=Str),
+           requires=lambda self: section_ok(self) and in_section(self),
+           old=lambda self: lists_snapshot(self),
+           modifies={'self._section_name_2_element_list': HavocBy(_havoc_dict_of_lists)},
+           may_raise=(FileAccessError, FileSourceError, PARSER_EXCEPTION),
+           ensures={
+               'every-list-keeps-its-elements-in-front (included elements are added at the end)':
+                   lambda self, old: lists_extended(self, old),
+           })
+M.loop(P_INCLUDE, 0,
+       invariant=lambda self, old, trace, inclusion_directive, _xs, _i: _include_inv(
+           self, old, trace, inclusion_directive, _xs, _i),
+       modifies={'self._section_name_2_element_list': SECTION_LISTS, 'file_to_include': 'local',
+                 'included_doc': 'local'})
